@@ -88,13 +88,34 @@ def _closest_on_segment(bg, e, target):
     return best[1]
 
 
+def hairline(text, bg, thr, above):
+    """Tune ONE channel of `text` (blue first - the smallest luminance weight, so the finest ratio steps) to the value whose
+    ratio against `bg` is the closest one on the requested side of `thr`: pairs a hair above / below a threshold
+    (typically within 0.003, one in ten within 0.0003), where a verdict computed with slightly different
+    coefficients or a slightly different comparison flips."""
+    best = None
+    for k in (2, 0, 1):
+        for v in range(256):
+            c = list(text)
+            c[k] = v
+            c = tuple(c)
+            r = ow.ratio(c, bg)
+            if (r >= thr) if above else (r < thr):
+                d = abs(r - thr)
+                if best is None or d < best[0]:
+                    best = (d, c)
+        if best is not None and best[0] < 0.004:
+            break
+    return best[1] if best else text
+
+
 def band(bg):
     L = ook.rgb_to_oklab(bg)[0]
     return "dark" if L < 0.35 else ("mid" if L < 0.65 else "light")
 
 
 @st.composite
-def pair_near(draw, thresholds=(3.0, 4.5, 7.0), delta_lo=-0.25, delta_hi=0.25, tight=0.03):
+def pair_near(draw, thresholds=(3.0, 4.5, 7.0), delta_lo=-0.25, delta_hi=0.25, tight=0.03, hair=True):
     """(text_rgb, bg_rgb, meta) with contrast constructed near thr*(1+delta)."""
     bg = draw(rgb())
     thr = draw(st.sampled_from(thresholds))
@@ -122,6 +143,10 @@ def pair_near(draw, thresholds=(3.0, 4.5, 7.0), delta_lo=-0.25, delta_hi=0.25, t
                 e = (0, 0, 0)
     text = _closest_on_segment(bg, e, thr * (1.0 + delta))
     nudge = draw(st.integers(-1, 1))
+    if hair and draw(st.integers(0, 4)) == 0:
+        above = True if delta_lo >= 0 else (False if delta_hi <= 0 else draw(st.booleans()))
+        text = hairline(text, bg, thr, above)
+        return text, bg, {"thr": thr, "delta": round(ow.ratio(text, bg) / thr - 1.0, 6), "lighter": lighter, "band": band(bg), "hair": True}
     if nudge:
         k = draw(st.integers(0, 2))
         tl = list(text)
